@@ -6,8 +6,4 @@ import SmtpV.Props.C19
 #print axioms SmtpV.Props.C19.C19_tripped_ends_commands
 #print axioms SmtpV.Props.C19.C19_resume_short_ok
 #print axioms SmtpV.Props.C19.C19_resume_counts_pending
-#print axioms SmtpV.Props.C19.C19_next_chunk_payload_not_counted
-#print axioms SmtpV.Props.C19.C19_unusable_bdat_line_counted_on
-#print axioms SmtpV.Props.C19.C19_nothing_skipped_behind_mode_change
-#print axioms SmtpV.Props.C19.C19_next_line_always_counted
-#print axioms SmtpV.Props.C19.C19_lookahead_only_skips
+#print axioms SmtpV.Props.C19.C19_line_handed_out_within_limit
